@@ -195,6 +195,42 @@ theorem PInv.preserved (wf : TxnWF t) {y : Sys} (h : PInv t y) (op : Op) : PInv 
     · exact ⟨resolve_kall wf 0 (Or.inl rfl) _ _ h.k hown, h.lc⟩
     · exact h
 
+  | foreign k fts ttl v =>
+    simp only [step]
+    refine ⟨?_, h.lc⟩
+    show KAll t (foreignPrewrite t y.store k fts ttl v)
+    unfold foreignPrewrite
+    split
+    · exact h.k
+    · rename_i hne
+      split
+      · rename_i hany
+        simp only [List.any_eq_true, decide_eq_true_eq] at hany
+        obtain ⟨m, hm, rfl⟩ := hany
+        split
+        · rename_i hok
+          exact h.k.set wf hm (foreignKey_kstep hne hok)
+        · exact h.k
+      · exact h.k
+
+  | foreignAbort k fts =>
+    simp only [step]
+    refine ⟨?_, h.lc⟩
+    show KAll t (foreignAbort t y.store k fts)
+    unfold foreignAbort
+    split
+    · exact h.k
+    · rename_i h1
+      split
+      · exact h.k
+      · rename_i h2
+        split
+        · rename_i hany
+          simp only [List.any_eq_true, decide_eq_true_eq] at hany
+          obtain ⟨m, hm, rfl⟩ := hany
+          exact h.k.set wf hm (foreignAbort_kstep (t := t) y.store (m := m) fts h1 h2).1
+        · exact h.k
+
 theorem PInv.run_inv (wf : TxnWF t) : ∀ (ops : List Op) {y : Sys}, PInv t y → PInv t (run c t y ops)
   | [], _, h => h
   | op :: ops, _, h => by
